@@ -314,7 +314,7 @@ fn searched_then_corrupted(cx: &super::GenCtx) -> Vec<Plan> {
 }
 
 pub fn generate(cx: &super::GenCtx) -> Vec<Plan> {
-    if cx.index % 8 == 5 {
+    if cx.index % 16 == 5 {
         return searched_then_corrupted(cx);
     }
     let seed = cx.seed;
